@@ -302,7 +302,7 @@ def run_impl(inp, work):
         else:
             g = r2[1]
             out['returned'] = g.name.split('/')[-1]
-            out['status'] = [int(x) for x in g['completed_positions'][()]] if 'completed_positions' in g and \
+            out['status'] = np.asarray(g['completed_positions'][()]).astype(np.int64).tolist() if 'completed_positions' in g and \
                 isinstance(g['completed_positions'], h5py.Dataset) else None
         out['calls'] = sorted(procs.read_log(log, m))
         after = {k: _dump(parent[k]) for k in names}
